@@ -65,7 +65,33 @@ SIMD_XOF = ["blake3_compress_xof_avx512", "blake3_compress_xof_sse41", "blake3_c
 SIMD_XOF_MANY = ["blake3_xof_many_avx512"]
 SIMD_HASH_MANY = ["blake3_hash_many_avx512", "blake3_hash_many_avx2", "blake3_hash_many_sse41",
                   "blake3_hash_many_sse2"]
-ASSUMED = set(SIMD_IN_PLACE + SIMD_XOF + SIMD_XOF_MANY + SIMD_HASH_MANY) | {"strlen"}
+ASSUMED = set(SIMD_IN_PLACE + SIMD_XOF + SIMD_XOF_MANY + SIMD_HASH_MANY) | {"strlen", "blake3_compress_subtree_wide_join_tbb"}
+
+
+# Functions whose contract replaces EVERY call in every unit (unless the unit verifies that very
+# function or lists it as inlined).  A unit names in `replace` the callees the unmodified code
+# really calls; the rest of this list only matters when a change makes a function call something
+# it did not call before (e.g. finalize calling hasher_merge_cv_stack): the new call is then
+# checked against the callee's contract and the caller's assigns clause instead of being inlined.
+GUARD_REPLACE = [
+    "chunk_state_fill_buf", "chunk_state_update", "output_chaining_value", "output_root_bytes",
+    "compress_chunks_parallel", "compress_parents_parallel", "blake3_compress_subtree_wide",
+    "compress_subtree_to_parent_node", "hasher_init_base", "hasher_merge_cv_stack", "hasher_push_cv",
+    "blake3_hasher_update_base", "blake3_hasher_update", "blake3_hasher_finalize",
+    "blake3_hasher_finalize_seek", "blake3_hasher_reset", "blake3_hasher_init", "blake3_hasher_init_keyed",
+    "blake3_hasher_init_derive_key_raw", "blake3_compress_in_place", "blake3_compress_xof",
+    "blake3_xof_many", "blake3_hash_many", "blake3_simd_degree", "left_subtree_len",
+    "round_down_to_power_of_2", "blake3_compress_in_place_portable", "blake3_compress_xof_portable",
+    "hash_one_portable", "blake3_hash_many_portable", "get_cpu_features",
+]
+
+
+def _replaced(u):
+    """explicit callees first, then the guard list"""
+    if not u["enforce"]:
+        return []
+    extra = [g for g in GUARD_REPLACE if g != u["func"] and g not in u["inlined"] and g not in u["replace"]]
+    return u["replace"] + extra
 
 
 def _u(func, props, doc, file="blake3.c", replace=(), inlined=(), loops=(), unwind=1, bounded=(),
@@ -261,11 +287,12 @@ def _trace_inputs(trace, func, params):
             if lhs.endswith("_wrapper") and lhs[:-8] in params:
                 params_v.setdefault(lhs[:-8], v)
             elif lhs.startswith("obs_"):
-                obs_v.setdefault(lhs[4:], v)
+                if fn != "harness":      # VERIF_PROLOGUE calls the observers with 0
+                    obs_v.setdefault(lhs[4:], v)
             elif lhs in params and fn == "harness":
                 params_v.setdefault(lhs, v)
         elif fn == "harness" and "$" not in lhs and "[" not in lhs and "." not in lhs and \
-                not lhs.startswith("__") and not lhs.startswith("verif_nd"):
+                not re.match(r"^(__|verif_nd|return_value|tmp_|goto_symex)", lhs):
             vals[lhs] = v      # named scalar locals of harness-allocated harnesses (last value wins)
     vals.update(obs_v)
     for k, v in params_v.items():
@@ -301,6 +328,8 @@ def _map_file(path, repo, scratch):
     """Map a file name from cbmc's output to a repo-relative one (scratch copies included)."""
     if not path:
         return None
+    if path.startswith("<"):
+        return path
     base = os.path.basename(path)
     ap = os.path.abspath(path)
     if ap.startswith(os.path.abspath(scratch) + os.sep) and base in SOURCES + ["blake3_impl.h", "blake3.h"]:
@@ -395,7 +424,7 @@ def _commands(name, main_c, scratch, repo, trace=True, sanity=False, unwindset=(
     # function in every unit (goto-instrument --apply-loop-contracts: 23 s -> 0.4 s)
     g0 = os.path.join(scratch, "h_pre.goto")
     pre = ["goto-instrument"]
-    for r in u["replace"]:
+    for r in _replaced(u):
         pre += ["--remove-function-body", r]
     if unwindset:
         # a loop nested in a loop that has a loop contract must be unwound before DFCC runs
@@ -404,7 +433,7 @@ def _commands(name, main_c, scratch, repo, trace=True, sanity=False, unwindset=(
     gi = ["goto-instrument", "--dfcc", "harness"]
     if u["enforce"]:
         gi += ["--enforce-contract-rec" if u["rec"] else "--enforce-contract", u["func"]]
-    for r in u["replace"]:
+    for r in _replaced(u):
         gi += ["--replace-call-with-contract", r]
     if u["loops"]:
         gi += ["--apply-loop-contracts"]
@@ -472,6 +501,87 @@ def _parse_json(out):
         return None
 
 
+ALLOWED_STATICS = {"g_cpu_features"}
+
+
+def _run_static_objects(name, res, sanity=False):
+    """C18, structural: enumerate (from goto-cc's symbol table of the full-dispatch translation unit)
+    every object with static storage duration that the three library files define; all of them
+    must be const-qualified except the CPU feature cache.  This covers function-local `static`
+    buffers, which DFCC adds to a function's write set silently."""
+    import time
+    u = UNITS[name]
+    repo = common.REPO
+    t0 = time.time()
+    scratch = common.scratch_dir("cbmc_" + name)
+    try:
+        for f in SOURCES:
+            if not os.path.isfile(_src_path(repo, f)):
+                res["undecided_reason"] = "lost anchor: c/%s not found" % f
+                return res
+        main_c = os.path.join(scratch, "unit_%s.c" % name)
+        common.write(main_c, "\n".join(['#include "%s"' % SPEC_H] + ['#include "%s"' % _src_path(repo, f) for f in SOURCES]
+                                       + ["void harness(void) { %s }" % ("static int verif_sanity_static; verif_sanity_static = 1;" if sanity else ""), ""]))
+        g1 = os.path.join(scratch, "h.goto")
+        cc = ["goto-cc", "-I" + os.path.join(CBMC_DIR, "stubs"), "-I" + os.path.join(repo, "c"), "-o", g1, main_c,
+              "--function", "harness"]
+        st = ["goto-instrument", "--show-symbol-table", "--json-ui", g1]
+        res["cmd"] = _fmt(cc) + " && " + _fmt(st)
+        rc, out, err, _ = common.run(cc, timeout=120)
+        if rc != 0:
+            res["undecided_reason"] = "goto-cc failed (rc %s): %s" % (rc, (err + out)[-600:])
+            return res
+        rc, out, err, _ = common.run(st, timeout=120)
+        data = _parse_json(out) if rc == 0 else None
+        table = None
+        for m in data or []:
+            if isinstance(m, dict) and "symbolTable" in m:
+                table = m["symbolTable"]
+        if table is None:
+            res["undecided_reason"] = "goto-instrument --show-symbol-table failed (rc %s): %s" % (rc, (out + err)[-400:])
+            return res
+        cdir = os.path.abspath(os.path.join(repo, "c")) + os.sep
+        objs = []
+        for k, v in table.items():
+            if not v.get("isStaticLifetime") or v.get("isType") or v.get("isMacro") or v.get("isExtern"):
+                continue
+            if v.get("type", {}).get("id") == "code":
+                continue
+            f = v.get("location", {}).get("file", "")
+            inrepo = os.path.abspath(f).startswith(cdir)
+            if not inrepo and not (sanity and "verif_sanity_static" in k):
+                continue
+            objs.append((k, v))
+        res["obligations"] = len(objs)
+        res["functions_verified"] = ["every object with static storage duration defined in c/%s" % f for f in SOURCES]
+        for k, v in objs:
+            ptype = v.get("prettyType", "")
+            loc = v.get("location", {})
+            where = "%s:%s" % (_map_file(loc.get("file"), repo, scratch), loc.get("line"))
+            const = ptype.startswith("const ") or " const " in (" " + ptype + " ")
+            if const or v.get("baseName") in ALLOWED_STATICS:
+                res["discharged"] += 1
+                if len(res["samples"]) < 5:
+                    res["samples"].append("static object %s : %s is %s [%s]" % (
+                        k, ptype, "const" if const else "the allowed detection cache", where))
+            else:
+                fn = k.split("::")[0] if "::" in k else "(file scope)"
+                res["failed"].append(common.failed_obligation(
+                    fn, "assigns", "mutable object with static storage duration: %s : %s (shared between all hashers; "
+                    "only g_cpu_features is allowed)" % (k, ptype), location=where,
+                    clause="C18: assigns of every API function within its arguments + g_cpu_features", inputs=None,
+                    raw="%s %s" % (k, ptype)))
+                res["failed"][-1]["unit_function"] = fn
+        if res["obligations"] == 0:
+            res["undecided_reason"] = "vacuous: no static objects found (g_cpu_features, IV, MSG_SCHEDULE expected)"
+        else:
+            res["status"] = "fail" if res["failed"] else "pass"
+        return res
+    finally:
+        res["seconds"] = round(time.time() - t0, 2)
+        common.rm_rf(scratch)
+
+
 def run_unit(name, tier="quick", keep=False, sanity=False):
     """sanity=True (self-test only) compiles the harness with -DVERIF_SANITY: an assert(0) at the end
     of the harness, which must FAIL -- otherwise the contract's assumptions are vacuous."""
@@ -487,6 +597,12 @@ def run_unit(name, tier="quick", keep=False, sanity=False):
         else "full x86 dispatch, SIMD kernels replaced by assumed frame contracts", " ".join(CHECK_FLAGS))
     res["bounded"] = list(u["bounded"])
     res["trusted_base"] = BASE_TRUST + u["extra_trust"]
+    if u.get("kind") == "static_objects":
+        res["trusted_base"] = ["goto-cc's symbol table lists every object with static storage duration of the "
+                               "translation unit (blake3.c + blake3_dispatch.c + blake3_portable.c, full x86 dispatch)",
+                               "const-qualified objects are not written (writing one is UB and is flagged by the "
+                               "pointer checks of the unit that would do it)"]
+        return _run_static_objects(name, res, sanity)
     scratch = common.scratch_dir("cbmc_" + name)
     cmds = []
     import time
@@ -503,6 +619,9 @@ def run_unit(name, tier="quick", keep=False, sanity=False):
         res["functions_trusted"] = [
             "%s (%s)" % (r, "ASSUMED frame contract: asm/SIMD or libc, not analysed" if r in ASSUMED
                          else "replaced by its contract; enforced by its own unit") for r in u["replace"]]
+        if u["enforce"]:
+            res["functions_trusted"].append(
+                "any other function of GUARD_REPLACE (not called by the unmodified code): contract, if a call appears")
         if u["loops"]:
             res["functions_trusted"].append(
                 "loop contracts of %s inserted from verif/cbmc/loop_contracts.txt (checked: base, step, "
@@ -558,7 +677,9 @@ def run_unit(name, tier="quick", keep=False, sanity=False):
         if results is None:
             res["undecided_reason"] = "cbmc produced no result list: %s" % (out[-400:] + err[-300:])
             return res
-        res["solver_seconds"] = round(solver, 2)
+        # cbmc prints its own solver statistics only at verbosity >= 8; report the wall time of
+        # the cbmc process (symbolic execution + SAT) instead when they are absent
+        res["solver_seconds"] = round(solver if solver else secs, 2)
         res["obligations"] = len(results)
         ok = [r for r in results if r.get("status") == "SUCCESS"]
         bad = [r for r in results if r.get("status") != "SUCCESS"]
@@ -581,23 +702,55 @@ def run_unit(name, tier="quick", keep=False, sanity=False):
         if len(results) == 0:
             res["undecided_reason"] = "vacuous: cbmc reported 0 checks"
             return res
+        # counterexample values: --slice-formula drops the assignments that do not influence a
+        # property from its trace (among them the observed pre-state fields), so the failing
+        # properties are re-run once without slicing, restricted with --property
+        full = {}
+        if bad:
+            cb2 = [x for x in cb if x != "--slice-formula"]
+            for r in bad[:4]:
+                cb2 += ["--property", r["property"]]
+            rc2, out2, err2, _ = common.run(cb2, timeout=min(u["timeout"], 400), mem_gb=u["mem_gb"])
+            data2 = _parse_json(out2) if rc2 in (0, 10) else None
+            for m in data2 or []:
+                if isinstance(m, dict) and "result" in m:
+                    for r2 in m["result"]:
+                        if r2.get("status") != "SUCCESS" and r2.get("trace"):
+                            full[r2["property"]] = r2["trace"]
+            res["cmd"] += " ; on failure, for the counterexample values: " + _fmt(cb2)
         for r in bad[:12]:
             sl = r.get("sourceLocation", {})
             fpath = sl.get("file")
-            if fpath and not os.path.isabs(fpath):
+            if fpath and not os.path.isabs(fpath) and not fpath.startswith("<"):
                 fpath = os.path.join(sl.get("workingDirectory", scratch), fpath)
             f = _map_file(fpath, repo, scratch)
             kind = _kind(sl.get("propertyClass") or r["property"], r["description"])
+            trace = full.get(r["property"]) or r.get("trace", [])
             clause = None
             if f and f.startswith("verif/cbmc/") and fpath and os.path.isfile(fpath):
                 txt = _line_of(fpath, sl.get("line"))
                 clause = "%s:%s: %s" % (f, sl.get("line"), txt)
                 # for harness asserts and contract clauses, the location is the function itself
                 where = "c/%s:%d" % (u["file"], info["line"])
+            elif f and f.startswith("c/"):
+                where = "%s:%s" % (f, sl.get("line"))
             else:
-                where = "%s:%s" % (f, sl.get("line")) if f else None
+                # a check inside a CBMC library model (memcpy, DFCC write-set): report the last
+                # repository line the counterexample went through
+                where = None
+                for st in reversed(trace):
+                    sl2 = st.get("sourceLocation", {})
+                    f2 = sl2.get("file")
+                    if f2 and not os.path.isabs(f2) and not f2.startswith("<"):
+                        f2 = os.path.join(sl2.get("workingDirectory", scratch), f2)
+                    m2 = _map_file(f2, repo, scratch) if f2 else None
+                    if m2 and m2.startswith("c/"):
+                        where = "%s:%s" % (m2, sl2.get("line"))
+                        break
+                where = where or "c/%s:%d" % (u["file"], info["line"])
+                clause = "%s:%s" % (f, sl.get("line"))
             fn = sl.get("function") or u["func"]
-            inputs = _trace_inputs(r.get("trace", []), u["func"], info["params"]) or None
+            inputs = _trace_inputs(trace, u["func"], info["params"]) or None
             raw = "[%s] %s: %s" % (r["property"], r["description"], r.get("status"))
             res["failed"].append(common.failed_obligation(
                 fn, kind, r["description"], location=where, clause=clause, inputs=inputs, raw=raw))
@@ -747,10 +900,10 @@ _REPLAY = {
                             " for (int i = 0; i < 64; i++) CHECK(h->chunk.buf[i] == 0); CHECK(HASHER_WF(h));"),
     "blake3_xof_many": (["outblocks64"], "output_t *o = mk_output({block_len}u, {flags}u, {counter}ull); size_t n = {outblocks}ull; uint8_t *out = xalloc(64 * n);"
                         " blake3_xof_many(o->input_cv, o->block, o->block_len, o->counter, o->flags, out, n);"),
-    "blake3_compress_in_place": ([], "blake3_chunk_state *s = mk_cs(0, 0, 0, 0); blake3_compress_in_place(s->cv, s->buf, {block_len}u, {counter}ull, {flags}u);"),
-    "blake3_compress_in_place_portable": ([], "blake3_chunk_state *s = mk_cs(0, 0, 0, 0); blake3_compress_in_place_portable(s->cv, s->buf, {block_len}u, {counter}ull, {flags}u);"),
-    "blake3_compress_xof": ([], "output_t *o = mk_output({block_len}u, {flags}u, {counter}ull); uint8_t *out = xalloc(64); blake3_compress_xof(o->input_cv, o->block, o->block_len, o->counter, o->flags, out);"),
-    "blake3_compress_xof_portable": ([], "output_t *o = mk_output({block_len}u, {flags}u, {counter}ull); uint8_t *out = xalloc(64); blake3_compress_xof_portable(o->input_cv, o->block, o->block_len, o->counter, o->flags, out);"),
+    "blake3_compress_in_place": ([], "uint32_t *cv = xalloc(32); uint8_t *block = xalloc(64); blake3_compress_in_place(cv, block, {block_len}u, {counter}ull, {flags}u);"),
+    "blake3_compress_in_place_portable": ([], "uint32_t *cv = xalloc(32); uint8_t *block = xalloc(64); blake3_compress_in_place_portable(cv, block, {block_len}u, {counter}ull, {flags}u);"),
+    "blake3_compress_xof": ([], "uint32_t *cv = xalloc(32); uint8_t *block = xalloc(64); uint8_t *out = xalloc(64); blake3_compress_xof(cv, block, {block_len}u, {counter}ull, {flags}u, out);"),
+    "blake3_compress_xof_portable": ([], "uint32_t *cv = xalloc(32); uint8_t *block = xalloc(64); uint8_t *out = xalloc(64); blake3_compress_xof_portable(cv, block, {block_len}u, {counter}ull, {flags}u, out);"),
     "hash_one_portable": (["blocks64"], "size_t b = {blocks}ull; uint8_t *in = xalloc(64 * b); uint32_t *key = xalloc(32); uint8_t *out = xalloc(32);"
                           " hash_one_portable(in, b, key, {counter}ull, {flags}u, {flags_start}u, {flags_end}u, out);"),
     "blake3_hash_many": (["rows"], "size_t n = {num_inputs}ull, b = {blocks}ull; const uint8_t *rows[16]; for (size_t i = 0; i < n && i < 16; i++) rows[i] = xalloc(64 * b);"
@@ -767,20 +920,7 @@ class _Zero(dict):
         return 0
 
 
-def replay(failed, repo=None):
-    """Re-run the counterexample of a failed obligation on the real C sources under
-    AddressSanitizer + UBSan.  Returns {"reproduced", "driver", "output"} or None when the
-    obligation carries no usable inputs / the function has no replay recipe."""
-    repo = repo or common.REPO
-    inputs = failed.get("inputs")
-    func = failed.get("unit_function") or failed.get("function")
-    if not inputs or func not in _REPLAY:
-        return None
-    sizes, body = _REPLAY[func]
-    vals = _Zero({k: int(v) for k, v in inputs.items() if isinstance(v, int)})
-    # the contract's own parameter may share a name with an observed field (hasher_push_cv)
-    if func == "hasher_push_cv" and "chunk_counter" in inputs:
-        pass
+def _replay_need(sizes, vals):
     need = 0
     for s in sizes:
         if s == "outblocks64":
@@ -791,28 +931,68 @@ def replay(failed, repo=None):
             need = max(need, 64 * vals["blocks"] * max(1, vals["num_inputs"]))
         else:
             need = max(need, vals[s])
-    if need > REPLAY_MAX_ALLOC:
-        return {"reproduced": False, "driver": None,
-                "output": "not replayed: the counterexample needs a %d-byte buffer (> %d)" % (need, REPLAY_MAX_ALLOC)}
-    driver = _DRIVER_PRELUDE + "int main(void) {\n  " + body.format_map(vals).replace("; ", ";\n  ") + \
-        "\n  puts(\"REPLAY: no violation observed\");\n  return 0;\n}\n"
+    return need
+
+
+_SIZE_FIELDS = {"outblocks64": ["outblocks"], "blocks64": ["blocks"], "rows": ["blocks"]}
+
+
+def replay(failed, repo=None):
+    """Re-run the counterexample of a failed obligation on the real C sources under
+    AddressSanitizer + UBSan.  Returns {"reproduced", "driver", "output"} or None when the
+    obligation carries no usable inputs / the function has no replay recipe.  cbmc is free to
+    pick astronomically large lengths; when a buffer of the reported size cannot be allocated the
+    same driver is tried with a few small lengths instead (a reproduction with other arguments is
+    still a real violation; the values used are reported as "inputs_used")."""
+    repo = repo or common.REPO
+    inputs = failed.get("inputs")
+    func = failed.get("unit_function") or failed.get("function")
+    if not inputs or func not in _REPLAY:
+        return None
+    sizes, body = _REPLAY[func]
+    base = _Zero({k: int(v) for k, v in inputs.items() if isinstance(v, int)})
+    candidates = []
+    if _replay_need(sizes, base) <= REPLAY_MAX_ALLOC:
+        candidates.append(base)
+    else:
+        fields = sum([_SIZE_FIELDS.get(s, [s]) for s in sizes], [])
+        for small in ("mod", 1, 64, 65, 1025, 4097, 70000):
+            v = _Zero(base)
+            for f in fields:
+                if base[f] > 4096:
+                    v[f] = (base[f] % 4096 + 1) if small == "mod" else small
+            if _replay_need(sizes, v) <= REPLAY_MAX_ALLOC and v not in candidates:
+                candidates.append(v)
     scratch = common.scratch_dir("cbmc_replay")
+    last = None
     try:
-        src = os.path.join(scratch, "driver.c")
-        exe = os.path.join(scratch, "driver")
-        common.write(src, driver)
-        cmd = ["clang", "-g", "-O1", "-fsanitize=address,undefined", "-fno-sanitize-recover=all"] + PORTABLE_DEFS + \
-              ["-I" + os.path.join(repo, "c"), "-Wno-everything", src, "-o", exe]
-        rc, out, err, _ = common.run(cmd, timeout=180, mem_gb=None)
-        if rc != 0:
-            return {"reproduced": False, "driver": driver, "output": "driver did not compile: " + (err + out)[-1500:]}
-        rc, out, err, _ = common.run([exe], timeout=120, mem_gb=None,
-                                     env={"ASAN_OPTIONS": "detect_leaks=0:abort_on_error=0", "UBSAN_OPTIONS": "print_stacktrace=1"})
-        text = (out + err).replace(scratch, "<scratch>")
-        return {"reproduced": rc != 0, "driver": driver, "output": text[-3000:], "cmd": _fmt(cmd).replace(scratch, "<scratch>")}
+        for n, vals in enumerate(candidates[:7]):
+            driver = _DRIVER_PRELUDE + "int main(void) {\n  " + body.format_map(vals).replace("; ", ";\n  ") + \
+                "\n  puts(\"REPLAY: no violation observed\");\n  return 0;\n}\n"
+            src = os.path.join(scratch, "driver%d.c" % n)
+            exe = os.path.join(scratch, "driver%d" % n)
+            common.write(src, driver)
+            cmd = ["clang", "-g", "-O1", "-fsanitize=address,undefined", "-fno-sanitize-recover=all"] + PORTABLE_DEFS + \
+                  ["-I" + os.path.join(repo, "c"), "-Wno-everything", src, "-o", exe]
+            rc, out, err, _ = common.run(cmd, timeout=180, mem_gb=None)
+            if rc != 0:
+                return {"reproduced": False, "driver": driver, "output": "driver did not compile: " + (err + out)[-1500:]}
+            rc, out, err, _ = common.run([exe], timeout=120, mem_gb=None,
+                                         env={"ASAN_OPTIONS": "detect_leaks=0:abort_on_error=0",
+                                              "UBSAN_OPTIONS": "print_stacktrace=1"})
+            text = (out + err).replace(scratch, "<scratch>")
+            last = {"reproduced": rc != 0, "driver": driver, "output": text[-3000:],
+                    "cmd": _fmt(cmd).replace(scratch, "<scratch>"),
+                    "inputs_used": {k: vals[k] for k in inputs if isinstance(inputs[k], int)}}
+            if rc != 0:
+                return last
+        if last is None:
+            return {"reproduced": False, "driver": None,
+                    "output": "not replayed: the counterexample needs a %d-byte buffer (> %d)" % (
+                        _replay_need(sizes, base), REPLAY_MAX_ALLOC)}
+        return last
     finally:
         common.rm_rf(scratch)
-
 
 
 # --------------------------------------------------------------------------------------------
@@ -868,11 +1048,11 @@ def _register():
         doc="<= 16 rows of 64*blocks bytes; writes exactly out[0..32*num_inputs)")
 
     U["compress_spec_vector"] = _u(
-        "blake3_compress_xof_portable", ["C06"], file=P, harness="compress_spec_vector", enforce=False, unwind=17,
-        bounded=["unwind 17: only the constant-trip-count loops (<= 16) of the spec and of the harness; the C kernel is loop-free"],
+        "blake3_compress_xof_portable", ["C06"], file=P, harness="compress_spec_vector", enforce=False, unwind=65,
+        bounded=["unwind 65: only the constant-trip-count loops (<= 64) of the spec and of the harness; the C kernel is loop-free"],
         inlined=["compress_pre", "round_fn", "g", "rotr32", "load32", "store32"],
         doc="concrete: the paper-style spec (verif/cbmc/compress_spec.h) and the C portable kernel both reproduce "
-            "the official BLAKE3(\"\") vector")
+            "the official vectors for input_len 0 and 64 (one compression each)")
     U["compress_spec_equiv"] = _u(
         "blake3_compress_in_place_portable", ["C06"], file=P, harness="compress_spec_equiv", enforce=False, unwind=17,
         bounded=["unwind 17: only the constant-trip-count loops (<= 16) of the spec and of the harness; the C kernel is loop-free"],
@@ -914,6 +1094,12 @@ def _register():
         replace=["get_cpu_features", "blake3_hash_many_portable"] + SIMD_HASH_MANY,
         bounded=["unwind 17 only for the harness loop that allocates the <= 16 input rows; the function is loop-free"],
         doc="exactly 32 bytes per hashed input: out[0..32*num_inputs) on every dispatch path")
+
+    U["static_objects"] = _u(
+        "blake3_version", ["C18"], config="dispatch", enforce=False,
+        doc="structural: the only non-const object with static storage duration in the three C files is the "
+            "g_cpu_features cache (also catches function-local static scratch buffers, which DFCC tolerates)")
+    U["static_objects"]["kind"] = "static_objects"
 
     # ---- blake3.c: chunk state -------------------------------------------------------------
     U["blake3_version"] = _u("blake3_version", API, doc="assigns nothing, returns a readable string")
@@ -969,6 +1155,14 @@ def _register():
         replace=["blake3_simd_degree", "compress_chunks_parallel", "left_subtree_len", "compress_parents_parallel"],
         doc="recursive (--enforce-contract-rec), unbounded input_len: writes only out[0..512) ; 1 <= n <= 16, "
             "n == 1 iff a single chunk; both recursive calls and the parent layer stay inside cv_array")
+    U["blake3_compress_subtree_wide_tbb"] = _u(
+        "blake3_compress_subtree_wide", ["C07"], harness="blake3_compress_subtree_wide", defs=["-DBLAKE3_USE_TBB"],
+        replace=["blake3_simd_degree", "compress_chunks_parallel", "left_subtree_len", "compress_parents_parallel",
+                 "blake3_compress_subtree_wide_join_tbb"],
+        extra_trust=["blake3_tbb.cpp (C++/oneTBB) is not analysed: blake3_compress_subtree_wide_join_tbb is replaced by "
+                     "an assumed frame+shape contract (writes only its two CV windows and the two counts)"],
+        doc="-DBLAKE3_USE_TBB build of the same function: the arguments passed to the oneTBB join seam satisfy its "
+            "contract (two 512-byte windows inside cv_array) and the C side is safe given the seam's frame")
     U["compress_subtree_to_parent_node"] = _u(
         "compress_subtree_to_parent_node", ["C07"], unwind=5,
         replace=["blake3_compress_subtree_wide", "compress_parents_parallel"],
@@ -1019,6 +1213,9 @@ def _register():
     U["blake3_hasher_update"] = _u(
         "blake3_hasher_update", API + ["C06"], replace=["blake3_hasher_update_base"],
         doc="same contract as update_base; update(_, _, 0) assigns nothing; key never written")
+    U["blake3_hasher_update_tbb"] = _u(
+        "blake3_hasher_update_tbb", API + ["C06"], defs=["-DBLAKE3_USE_TBB"], replace=["blake3_hasher_update_base"],
+        doc="-DBLAKE3_USE_TBB build: same contract as blake3_hasher_update (use_tbb = true is passed on)")
     U["blake3_hasher_finalize_seek"] = _u(
         "blake3_hasher_finalize_seek", API + ["C06"], replace=["output_chaining_value", "output_root_bytes"],
         solver="cadical",
